@@ -6,3 +6,5 @@ import Scfg.Props.C05
 import Scfg.Props.C06
 import Scfg.Props.C14
 import Scfg.Props.C18
+import Scfg.Props.C13
+import Scfg.Props.C16
